@@ -35,6 +35,26 @@ CHECKS["C10"] = dict(
     technique="Lean 4 theorems (induction over spelling lists, per-state lemmas) + exhaustive state-byte differential tie",
     ref="§5 C10")
 
+VTNOTE = 'Lean kernel; axioms propext, Classical.choice, Quot.sound; the terminal is Tpp.Ref.VT with the modelling decisions of DESIGN §4 (SCO save/restore of position only, G0=US-ASCII/UTF-8 off initially, ED/EL do not move the cursor, one cell per glyph); domain: graphic glyphs, constructible colours, positions inside the declared size, declared size = actual size; the library model (Tpp.Model.Terminal/Encoder) is hand-written and tied byte-for-byte and record-for-record to the real library on exhaustive sweeps and seeded random histories under ASan/UBSan; the oracle judges the REAL bytes on Ref.VT.'
+CHECKS["C01"] = dict(
+    text="The simulation theorem agree_run (belief/terminal agreement preserved by every in-domain operation, by induction over arbitrary histories) plus run_log: for every history of element/string writes interleaved with erases, cursor moves, save/restore, mode switches, titles and resizes, from a terminal in ANY unknown rendition and for both unicode_in_all_charsets values, the reference terminal's print log grows by exactly cellOf(e) for each requested element in order (text, character set, bold/faint, underline, blink, inverse, fg, bg), the terminal never meets a byte it cannot place, and every operation ends between control functions. Proved from per-function lemmas (CSI parameter rendering, SGR diff incl. the lemma that two different attributes always differ in an emitted parameter, SCS/UTF-8 switching, payload). On the pinned tree the check found blink never emitted (fixed, see known_findings.json).",
+    note=VTNOTE, technique="Lean 4 simulation proof (invariant by induction over histories) against a byte-level reference VT; exhaustive attribute/charset transition sweeps + random histories as tie", ref="§5 C01")
+CHECKS["C02"] = dict(
+    text="From agree_run: after ANY in-domain history (writes incl. into the last column, moves, save/restore, erases, resizes) a move to a position inside the declared size followed by a string that fits on the row lands glyph i at (x+i, y) in the reference terminal's log - for deferred-wrap, immediate-wrap and no-wrap terminals alike (the wrap mode is an unconstrained field of the terminal), for every terminal-side cursor the belief does not know. Includes the lemma that CHA/CUU/CUD/CUP from a known position land on the target and that the last column forgets the position in all three modes. On the pinned tree the check found the saved position surviving set_size (fixed).",
+    note=VTNOTE, technique="Lean 4 simulation proof + cursor-addressing lemmas over Int/Nat coordinates; exhaustive (from,to) sweeps + random histories as tie", ref="§5 C02")
+CHECKS["C08"] = dict(
+    text="The property is the invariant itself: Agree s vt says every 'some' in terminal_state (last element -> rendition and charset, cursor, saved cursor, visibility, size) equals the reference terminal's state; agree_step proves it is preserved by each of the 16 operations and by resize events, agree_run lifts it to every prefix of every history for all sizes, wrap and erase behaviours and initial states; plus theorems that the record says unknown after the last column, a size change, and restoring a never-saved position, and that the last-column state really differs between the three wrap modes. The real record is read through a user manipulator after every operation and compared with Ref.VT.",
+    note=VTNOTE, technique="Lean 4 invariant proof by induction over operation histories (refinement to reference VT); state record compared after every op as tie", ref="§5 C08")
+CHECKS["C09"] = dict(
+    text="For each of the six erase manipulators, after any history including none at all: the reference terminal's cells in the region the manipulator's name denotes become default-attribute blanks in all three erase behaviours (plain, background-colour-erase, current-rendition), no other cell of either buffer changes, cursor and pending-wrap flag are untouched, the rendition is default afterwards and the belief stays true, so later text is rendered exactly (C01 from the resulting state). On the pinned tree the check found erases on an unknown rendition sending no SGR 0 (fixed).",
+    note=VTNOTE, technique="Lean 4 proof (ED/EL lemmas on the reference VT + simulation invariant); every erase x cursor x preceding-state sweep as tie", ref="§5 C09")
+CHECKS["C11"] = dict(
+    text="A specification-level record of the most recent request of each kind (visibility, buffer, mouse, title) is proved consistent with the reference terminal's DEC private modes 25/47/1000/1003 and title after every in-domain history interleaved with text/cursor/erase/resize operations, for all 16 capability combinations and unknown initial modes: supported modes follow the last request despite elision, unsupported modes and never-requested kinds keep the terminal's own value, nothing is sent without the capability, BEL/ST terminator by capability, disable mirrors enable.",
+    note=VTNOTE, technique="Lean 4 proof: per-event mode-effect lemma + refinement to an abstract 'last requested' spec by induction; exhaustive capability x mode-sequence sweep as tie", ref="§5 C11")
+CHECKS["C13"] = dict(
+    text="When the record names the element last written or the attribute left by an erase (and by the simulation invariant the terminal really has that rendition and character set in effect), an element with the same attribute and charset is transmitted as its glyph bytes only (also inside strings, also after an erase); moving to the position the cursor is known - and by the invariant really is - at, and requesting the visibility already in effect, transmit nothing.",
+    note=VTNOTE, technique="Lean 4 theorems on the encoder model lifted to the terminal by the simulation invariant; repeated-operation sweeps as tie", ref="§5 C13")
+
 NOT_YET = {}
 
 
